@@ -32,6 +32,8 @@ def _snap(obj):
         return None
     if isinstance(obj, pandas.DataFrame):
         return ("frame", list(map(str, obj.columns)), list(obj.index), [tuple(map(repr, r)) for r in obj.itertuples(index=False)])
+    if hasattr(obj, "indptr") and hasattr(obj, "data"):
+        return ("sparse", obj.shape, obj.data.tobytes(), obj.indices.tobytes(), obj.indptr.tobytes())
     if isinstance(obj, list):
         import json
         return ("list", json.dumps(obj, default=repr))          # deep: a document may itself be a (mutable) list of tokens
@@ -81,6 +83,19 @@ def _bad(kind, X, y, w, data_kind):
         wb = np.arange(1, len(Xb) + 1, dtype=np.int64)
     elif kind == "X-readonly":
         Xb.setflags(write=False)
+    elif kind == "X-sparse-negative":
+        if data_kind != "nmf":
+            return None
+        import scipy.sparse
+        Xb = scipy.sparse.csr_matrix(Xb)
+        if Xb.nnz == 0:
+            return None
+        Xb.data[0] = -abs(Xb.data[0]) - 1.0            # a negative entry in a CSR table: refused or not, the caller's table stays as it is
+    elif kind == "X-sparse":
+        if data_kind != "nmf":
+            return None
+        import scipy.sparse
+        Xb = scipy.sparse.csr_matrix(Xb)
     elif kind == "inf-y":
         if yb is None or yb.dtype.kind != "f":
             return None
@@ -90,7 +105,7 @@ def _bad(kind, X, y, w, data_kind):
     return Xb, yb, wb
 
 
-BAD_KINDS = ["nan", "ylen", "few", "wlen", "X1d", "empty", "inf-y", "wrongtype", "none-y", "y-column", "X-fortran", "X-float32", "w-int", "X-readonly"]
+BAD_KINDS = ["nan", "ylen", "few", "wlen", "X1d", "empty", "inf-y", "wrongtype", "none-y", "y-column", "X-fortran", "X-float32", "w-int", "X-readonly", "X-sparse-negative", "X-sparse"]
 
 
 def _call_fit(entry, est, X, y, w, facts):
